@@ -386,11 +386,30 @@ func (l *Listener) Drain() (n int) {
 // Close closes the listener.
 func (l *Listener) Close() { _ = l.L.Close() }
 
+// ErrSelfConnect is returned instead of a TCP self-connection.
+var ErrSelfConnect = errors.New("peer: dial produced a TCP self-connection (no listener on the port); treated as refused")
+
+// IsSelfConn reports a TCP self-connection: dialling a local port in the ephemeral range that nobody listens on can
+// make the kernel pick that very port as the source port, and the socket then connects to ITSELF (simultaneous
+// open). Everything written comes back as input. A harness that re-dials a just-closed loopback port in a loop hits
+// this about once in 10^4..10^5 dials (seen once: a middlebox "connected" to the passive end's old port and echoed
+// the active end's own characters back at it). A remote peer can never do this, so every harness dial rejects it.
+func IsSelfConn(c net.Conn) bool {
+	la, ra := c.LocalAddr(), c.RemoteAddr()
+
+	return la != nil && ra != nil && la.String() == ra.String()
+}
+
 // Dial connects the scripted peer to a library that listens on addr; the Conn is NOT started.
 func Dial(addr string, gen int, d time.Duration) (*Conn, error) {
 	c, err := net.DialTimeout("tcp4", addr, d)
 	if err != nil {
 		return nil, err
+	}
+	if IsSelfConn(c) {
+		_ = c.Close()
+
+		return nil, ErrSelfConnect
 	}
 
 	return NewConn(c.(*net.TCPConn), gen), nil //nolint:forcetypeassert // tcp dial
